@@ -185,6 +185,7 @@ def params : Params := {
     ((.list, .list), ⟨.iter, .iter, .dispatch, .dispatch⟩)]
   mapDefault := ⟨.iter, .iter, .any, .any⟩
   mapBinaryGuard := true
+  binarySeesThroughPtr := true
 }
 
 def facts : Facts := {
@@ -203,6 +204,8 @@ def facts : Facts := {
   recursionDecrements := true
   recursiveCalls := 5
   depthZeroTests := 2
+  allocAfterSizeCheck := true
+  allocSitesSized := 6
   topLevelUsesLimit := true
   createLocksRechecksBuildsPublishes := true
   getIsReadOnly := true
